@@ -39,9 +39,13 @@ AllTiles == UNION {InGridTiles(G, l) : l \in Levels(G)}
 MInit == cache = {} /\ fetched = <<>> /\ last = [op |-> "init", ok |-> TRUE, new |-> 0]
 
 \* the meta tile (as upstream request) that holds tile t, and its in-grid tiles
-MetaOf(t) == Meta(G, MS, Buf, t)
-MetaTilesOf(t) == {MetaOf(t).tiles[k] : k \in 1 .. Len(MetaOf(t).tiles)} \ {NoTile}
-UpReq(t) == LET M == MetaOf(t) IN [l |-> t[3], bbox |-> M.bbox, main |-> M.main]
+\* (tables: constant definitions are evaluated once by TLC)
+MetaTab == [t \in AllTiles |-> Meta(G, MS, Buf, t)]
+MetaOf(t) == MetaTab[t]
+MetaTilesTab == [t \in AllTiles |-> {MetaTab[t].tiles[k] : k \in 1 .. Len(MetaTab[t].tiles)} \ {NoTile}]
+MetaTilesOf(t) == MetaTilesTab[t]
+UpReqTab == [t \in AllTiles |-> [l |-> t[3], bbox |-> MetaTab[t].bbox, main |-> MetaTab[t].main]]
+UpReq(t) == UpReqTab[t]
 
 \* make sure the tiles ts are cached: for each meta tile with a missing tile one upstream request, in the order
 \* of first occurrence in the sequence ts; all tiles of that meta tile are stored
